@@ -14,7 +14,7 @@ var vDurations = []string{
 
 // C31: candle-window arithmetic for every instant of a year (case-split years, symbolic instant).
 func VerifC31Windows() {
-	nd := int64(6)
+	nd := int64(9)
 	if rt.Tier() == 1 {
 		nd = int64(len(vDurations) - 1)
 	}
@@ -28,7 +28,7 @@ func VerifC31Windows() {
 		d int
 	}
 	days := []md{{1, 1}, {2, 29}, {3, 1}, {6, 30}, {12, 27}, {12, 28}, {12, 31}, {1, 31}, {2, 28}, {7, 1}, {1, 3}, {1, 4}}
-	ndays, nyears := int64(4), int64(0)
+	ndays, nyears := int64(6), int64(1)
 	if rt.Tier() == 1 {
 		ndays, nyears = int64(len(days)-1), 1
 	}
